@@ -304,8 +304,10 @@ impl Walrus {
             FileStateTracker::register_file_if_absent(file_path);
             debug_print!("[recovery] file {}", file_path);
 
+            // never read past the end of the file: it may have been truncated, or not be ours
+            let file_len = (mmap.len() as u64).min(MAX_FILE_SIZE);
             let mut block_offset: u64 = 0;
-            while block_offset + DEFAULT_BLOCK_SIZE <= MAX_FILE_SIZE {
+            while block_offset + DEFAULT_BLOCK_SIZE <= file_len {
                 // heuristic: if first bytes are zero, assume no more blocks
                 let mut probe = [0u8; 8];
                 mmap.read(block_offset as usize, &mut probe);
@@ -344,7 +346,7 @@ impl Walrus {
                 let block_limit = (first_need.saturating_add(DEFAULT_BLOCK_SIZE - 1) / DEFAULT_BLOCK_SIZE)
                     .max(1)
                     .saturating_mul(DEFAULT_BLOCK_SIZE);
-                if block_limit > MAX_FILE_SIZE - block_offset {
+                if block_limit > file_len - block_offset {
                     break;
                 }
                 let col_name = md.owned_by;
